@@ -115,6 +115,9 @@ def hostile():
         {"name": "D3FF", "data": b"\xd3\xff"},
         {"name": "reserved1024", "data": res},
     ]
+    p1005, _, _ = R.build("1005", {}, "fp")
+    out.append({"name": "Fbadbody", "data": pinned.frame(p1005[:10])})  # valid CRC, body too short
+    out.append({"name": "Fshort1", "data": pinned.frame(b"\x3e")})
     for k in (3, 4, 5, 7):
         out.append({"name": f"trunc{k}", "data": f2[:k]})
     for it in out:
